@@ -244,9 +244,10 @@ def build_subject(case, env, tmpdir, state):
         image.size = getattr(Size, case["size_enum"])
 
     def call():
-        image.draw(case["h"], case["pw"], case["v"], case["ph"], case["alpha"], repeat=case["repeat"], cached=case["cached"], check_size=False, scroll=True, **(case.get("style_kw") or {}))
+        image.draw(case["h"], case["pw"], case["v"], case["ph"], case["alpha"], repeat=case["repeat"], cached=case["cached"], animate=case.get("animate", True), check_size=False, scroll=True, **(case.get("style_kw") or {}))
 
-    return call, dict(obj=image, render_attr="_render_image", animated=case["frames"] > 1, state=lambda: (image.size, image.tell(), image.closed), close=image.close)
+    # an animated image drawn with animate=False is a still draw: Ctrl-C propagates
+    return call, dict(obj=image, render_attr="_render_image", animated=case["frames"] > 1 and case.get("animate", True), state=lambda: (image.size, image.tell(), image.closed), close=image.close)
 
 
 def run_once(case, env, tmpdir, state, fault, res, buffered=False):
@@ -408,7 +409,7 @@ def run_subject(case, env, tmpdir, state, res, rnd):
                 for key, msg in errs:
                     prelude = i < first_render
                     k = "C07:" + key
-                    if key == "outcome" and exc == "KeyboardInterrupt" and prelude and (case.get("frames", 0) > 1 or (case["api"] == "new" and case.get("n") != 1)):
+                    if key == "outcome" and exc == "KeyboardInterrupt" and prelude and ((case.get("frames", 0) > 1 and case.get("animate", True)) or (case["api"] == "new" and case.get("n") != 1)):
                         k = "C07:ki-in-animation-prelude"
                     elif key == "cursor-hidden" and case["api"] == "old" and prelude:
                         k = "C07:old-api-hide-cursor-before-try"
@@ -454,7 +455,7 @@ def run_subject(case, env, tmpdir, state, res, rnd):
                       res.case((case["api"], case.get("style") or case.get("kind"), env.persona_name, i, "bflush", p, exc, str({k: v for k, v in case.items() if k != "seed"})))
                       for key, msg in errs:
                           k = "C07:" + key
-                          if key == "outcome" and exc == "KeyboardInterrupt" and i < first_render_b and (case.get("frames", 0) > 1 or (case["api"] == "new" and case.get("n") != 1)):
+                          if key == "outcome" and exc == "KeyboardInterrupt" and i < first_render_b and ((case.get("frames", 0) > 1 and case.get("animate", True)) or (case["api"] == "new" and case.get("n") != 1)):
                               k = "C07:ki-in-animation-prelude"
                           res.violation(k, ("%s API %s [%s] (" + bmode + "-buffered stream) %s; flush op %d/%d delivering %d of %d buffered chars") % (case["api"], case.get("style") or case.get("kind"), env.persona_name, msg, i, len(ops_b), p, dlen), dict(case, fault=[i, p, exc], buffered=bmode))
               if res.too_many():
@@ -499,6 +500,7 @@ def gen(rnd, persona):
         alpha=rnd.choice([40 / 255, None, "#102030"]),
         repeat=rnd.choice([1, 2]),
         cached=rnd.choice([True, False]),
+        animate=rnd.random() < 0.7,
     )
     if style == "kitty" and rnd.random() < 0.5:
         # large enough for a chunked transmission (more than 4096 base64 characters)
